@@ -368,7 +368,10 @@ def grep_cli(ctx, syms):
     if (lead or trail) and not hit_lines:
         # the text occurs, but not where the anchor wants it: still no match
         lines[6] = "zz " + body + " zz"
-    d = harness.new_project({"f.txt": "\n".join(lines) + "\n"})
+    final_nl = R.random() < 0.6
+    if not final_nl:
+        ctx.count("grep_cli_files_without_final_newline")
+    d = harness.new_project({"f.txt": "\n".join(lines) + ("\n" if final_nl else "")})
     try:
         # anchors mean the same for grep as for update (README: grep is there to test configuration entries,
         # its first example entry is '^__version__ = "{version}"$'): start / end of a LINE
